@@ -182,9 +182,11 @@ def early_exits(cfg: CFG, head: Node) -> list[Node]:
 MEMO_DECORATORS = {"lru_cache", "cache", "cached_property", "memoize", "memoized", "cached"}
 
 
-def scan_memoisation(tree: ast.Module) -> list[tuple[int, str, str]]:
-    """Functions wrapped by a memoising decorator that read attributes of their arguments (mutable state): (line, name, decorator)."""
+def scan_memoisation(tree: ast.Module, settings_readers: set[str] | None = None) -> list[tuple[int, str, str]]:
+    """Functions wrapped by a memoising decorator that read attributes of their arguments (mutable state) or the library's settings - directly or
+    through a library function that does (`settings_readers`: qualified names such as `Operation.str`, `scalar`): (line, name, decorator)."""
     out = []
+    settings_readers = settings_readers or set()
     for f in ast.walk(tree):
         if not isinstance(f, (ast.FunctionDef, ast.AsyncFunctionDef)):
             continue
@@ -197,8 +199,17 @@ def scan_memoisation(tree: ast.Module) -> list[tuple[int, str, str]]:
                                 and x.value.id in params and isinstance(x.ctx, ast.Load) and not x.attr.startswith("__")})
                 calls = sorted({f"{x.func.value.id}.{x.func.attr}()" for x in ast.walk(f) if isinstance(x, ast.Call) and isinstance(x.func, ast.Attribute)
                                 and isinstance(x.func.value, ast.Name) and x.func.value.id in params})
-                if reads or calls:
-                    out.append((f.lineno, f.name, f"@{name} over state {reads[:3] or calls[:3]}"))
+                glob = sorted({f"settings.{x.attr}" for x in ast.walk(f) if isinstance(x, ast.Attribute) and isinstance(x.value, ast.Name) and x.value.id == "settings"
+                               and isinstance(x.ctx, ast.Load)})
+                for x in ast.walk(f):
+                    if isinstance(x, ast.Call):
+                        if isinstance(x.func, ast.Attribute) and isinstance(x.func.value, ast.Name) and x.func.value.id in ("Op", "Operation") and \
+                                f"Operation.{x.func.attr}" in settings_readers:
+                            glob.append(f"Op.{x.func.attr}() -> settings")
+                        elif isinstance(x.func, ast.Name) and x.func.id in settings_readers:
+                            glob.append(f"{x.func.id}() -> settings")
+                if reads or calls or glob:
+                    out.append((f.lineno, f.name, f"@{name} over state {reads[:3] or calls[:3] or sorted(set(glob))[:3]}"))
     return out
 
 
@@ -209,8 +220,11 @@ def memoisation_rule(check, rule: str = "H8") -> None:
     from ..report import VERIF
 
     hits = []
+    # library functions whose result depends on the settings in force when they are called (Op.str, Op.is_close, scalar, to_float ...)
+    readers = {q for q, f in check.program.functions.items()
+               if any(isinstance(x, ast.Attribute) and isinstance(x.value, ast.Name) and x.value.id == "settings" and isinstance(x.ctx, ast.Load) for x in ast.walk(f.node))}
     for mod in check.program.modules.values():
-        for line, name, what in scan_memoisation(mod.tree):
+        for line, name, what in scan_memoisation(mod.tree, readers):
             hits.append((mod.relpath, line, name, what))
     for rel, line, name, what in hits:
         check.violation(rule, f"{rel}/{name}", f"`{name}` is memoised ({what}): the cached result is keyed by the identity of mutable objects, so it "
